@@ -276,6 +276,9 @@ func (e *executor) clientOp(t []string) (string, bool) {
 		return "", false
 	}
 	x := e.cl
+	if t[1] == "realclose" && len(t) == 5 {
+		return realCloseOp(atoi(t[2]), atoi(t[3]), t[4] == "1"), true
+	}
 	switch {
 	case t[1] == "new" && len(t) == 8:
 		if x != nil {
@@ -614,10 +617,23 @@ func (x *clientExec) concOp(k int, seed uint64) string {
 	x.conn.closeCount = 0
 	x.conn.writes = nil
 	x.conn.mu.Unlock()
+	// handlers registered before the race must have been completed by Close; the racing Starts' own handlers
+	// (h900000…) may or may not have been registered in time and are left out
 	x.mu.Lock()
+	var cs []string
+	for _, c := range x.cbs {
+		if !strings.HasPrefix(c, "h9000") {
+			cs = append(cs, c)
+		}
+	}
 	x.cbs = nil
 	x.mu.Unlock()
-	s := fmt.Sprintf("closes=%d connclose=%d reader=%s", okCloses, cc, reader)
+	sort.Strings(cs)
+	cbs := "-"
+	if len(cs) > 0 {
+		cbs = strings.Join(cs, ",")
+	}
+	s := fmt.Sprintf("closes=%d connclose=%d reader=%s cb=%s", okCloses, cc, reader, cbs)
 	if other != 0 {
 		s += fmt.Sprintf(" unexpected-close-results=%d", other)
 	}
@@ -662,4 +678,64 @@ func (x *clientExec) drain() {
 			return
 		}
 	}
+}
+
+// a connection for the real-time scenario: writes succeed, Read blocks until Close (or until released)
+type quietConn struct {
+	closed chan struct{}
+	once   sync.Once
+	writes int32
+}
+
+func (c *quietConn) Read([]byte) (int, error) { <-c.closed; return 0, io.ErrClosedPipe }
+func (c *quietConn) Write(b []byte) (int, error) {
+	atomic.AddInt32(&c.writes, 1)
+	return len(b), nil
+}
+func (c *quietConn) Close() error { c.once.Do(func() { close(c.closed) }); return nil }
+
+// CL realclose <n> <rto-us> <noclose>: a client with the DEFAULT ticker collector, real clock and real agent;
+// n transactions that nobody answers keep timing out and being retransmitted (the collector goroutine is almost
+// always inside handleAgentCallback); then Close. Close must return, and when it has returned every handler has
+// been invoked exactly once (time-out, or ErrAgentClosed from Close).
+func realCloseOp(n, rtoUs int, noClose bool) string {
+	stun.VerifResetClientPools()
+	conn := &quietConn{closed: make(chan struct{})}
+	opts := []stun.ClientOption{stun.WithRTO(time.Duration(rtoUs) * time.Microsecond),
+		stun.WithTimeoutRate(50 * time.Microsecond)}
+	if noClose {
+		opts = append(opts, stun.WithNoConnClose())
+	}
+	c, err := stun.NewClient(conn, opts...)
+	if err != nil {
+		return "err"
+	}
+	counts := make([]int32, n)
+	for i := 0; i < n; i++ {
+		i := i
+		m := &stun.Message{Raw: reqFor([]byte{9, 9, 9, 9, 9, 9, 9, 9, 9, 9, byte(i >> 8), byte(i)}, 28, 1)}
+		copy(m.TransactionID[:], []byte{9, 9, 9, 9, 9, 9, 9, 9, 9, 9, byte(i >> 8), byte(i)})
+		if err := c.Start(m, func(stun.Event) { atomic.AddInt32(&counts[i], 1) }); err != nil {
+			return "start-err:" + err.Error()
+		}
+	}
+	time.Sleep(time.Duration(2+n/20) * time.Millisecond) // several time-outs and retransmissions per transaction
+	done := make(chan error, 1)
+	go func() { done <- c.Close() }()
+	if noClose { // the caller owns the connection: its Read returns a moment later
+		time.Sleep(time.Millisecond)
+		conn.Close()
+	}
+	select {
+	case err = <-done:
+	case <-time.After(10 * time.Second):
+		return "close-hang"
+	}
+	once := 0
+	for i := range counts {
+		if atomic.LoadInt32(&counts[i]) == 1 {
+			once++
+		}
+	}
+	return fmt.Sprintf("ret=%s invoked-once=%d/%d", clientErr(err), once, n)
 }
